@@ -13,7 +13,7 @@
 (*                                                                         *)
 (* TLC explores ALL histories of at most MaxLen operations with at most    *)
 (* MaxAdmin admin calls and at most MaxQuery queries, from each of the     *)
-(* base configurations (the fresh installation and two "busy" ones in      *)
+(* base configurations (the fresh installation and three "busy" ones in    *)
 (* which several families are set at once), over the finite universe       *)
 (* below, and checks the statement of notes/G09.md on every reached state: *)
 (*   (i)   LogExactlyOnce        (ii)  StatsTotals                         *)
@@ -137,16 +137,37 @@ Busy2 == After(S0, <<[k |-> "client_add", c |-> K1c], [k |-> "client_add", c |->
                      [k |-> "filtering", on |-> FALSE],
                      [k |-> "rewrite_add", e |-> Rw(ADS, "ip4", "i2", <<>>)],
                      [k |-> "blocked_services", svcs |-> {"yt", "fb"}],
-                     Acc({}, {AC!Ip("v4", BitsOf(A2))}, {}),
+                     Acc({}, {AC!Ip("v4", BitsOf(A2))}, {AC!Pat("domain", DENY)}),
                      [k |-> "stats_config", enabled |-> TRUE, ignored |-> {IgnPat(RWN)}]>>, 1)
-Bases == IF Scale = 1 THEN {S0} ELSE {S0, Busy1, Busy2}
+Busy3 == After(S0, <<[k |-> "client_add", c |-> K1d], [k |-> "client_add", c |-> K2b],
+                     [k |-> "set_rules", rules |-> {Rule("block", "domain", ADS), Rule("allow", "domain", ADS)}],
+                     [k |-> "rewrite_add", e |-> Rw(RWN, "cname", "", FWD)],
+                     [k |-> "protection", on |-> TRUE],
+                     [k |-> "qlog_config", enabled |-> TRUE, anon |-> TRUE, ignored |-> {IgnPat(ADS)}]>>, 1)
+Bases == IF Scale = 1 THEN {S0} ELSE {S0, Busy1, Busy2, Busy3}
 
 \* ------------------------------------------------------------------ actions
 Ledger(s, q, o) == [S |-> [s EXCEPT !.log = <<>>, !.st = NoStats], q |-> q, o |-> o]
 
+\* Vacuity probe (TLC's -coverage cannot be used: its cost model does not
+\* terminate on the nested instances): every transition out of an initial state
+\* is printed with what it did, and checks/g09.py demands that every action and
+\* every kind of outcome the invariants talk about occurs among them.  Actions
+\* are guarded by the budget only, so what is enabled there is enabled everywhere.
+Probe(op, r) ==
+    (na + nq = 0) =>
+        PrintT(<<"@@V", ToJson([k |-> "edge", op |-> op.k,
+                                out |-> IF op.k = "query"
+                                        THEN [cls |-> r.out.cls, rcode |-> r.out.rcode, reason |-> r.out.reason,
+                                              served |-> r.out.served, cname |-> r.out.cname # <<>>,
+                                              logged |-> Len(r.S.log) > Len(S.log),
+                                              counted |-> r.S.st.total > S.st.total]
+                                        ELSE [cls |-> r.out, changed |-> r.S # S]])>>)
+
 Admin(op) ==
     /\ na < MaxAdmin /\ na + nq < MaxLen
     /\ \E r \in Apply(S, op) :
+         /\ Probe(op, r)
          /\ S' = r.S
          /\ lq' = IF op.k = "qlog_clear" THEN <<>> ELSE lq
          /\ ls' = IF op.k = "stats_reset" THEN <<>> ELSE ls
@@ -155,6 +176,7 @@ Admin(op) ==
 Query(q) ==
     /\ nq < MaxQuery /\ na + nq < MaxLen
     /\ \E r \in Apply(S, q) :
+         /\ Probe(q, r)
          /\ S' = r.S
          /\ lq' = Append(lq, Ledger(S, q, r.out))
          /\ ls' = Append(ls, Ledger(S, q, r.out))
